@@ -193,6 +193,26 @@ CHECKS = {
         note="Trusted: Coq kernel, generators, SDL printer; the lark grammar (syntax verdicts) and inspect (awaitability) are "
              "oracles.",
         design="4 C12"),
+    "C13": dict(
+        technique="Coq theorems on wraps_with_directives for arbitrary hook implementations + literal=variable theorem for "
+                  "tagging hooks + correspondence of delivered values / results / invocation logs on the real engine",
+        text="Model/Directives.v transcribes wraps_with_directives (the reversed loop of partial applications) for ARBITRARY hook "
+             "implementations taking the next stage as a continuation, and the wiring of the input / literal / argument / field / "
+             "output directive coercers. Proved: several directives on one element nest in declaration order, first declared "
+             "outermost, instances without the hook skipped (every implementation); query-side field directives wrap the "
+             "schema-side ones which wrap the resolver; with tagging hooks each applicable hook of each instance is invoked "
+             "exactly once per value, in order, with its own argument, and each hook sees what the previous returned; a value "
+             "spelled as a literal, as a whole-argument variable or with variables nested at any depth in list/object literals "
+             "is delivered identically (type-level hooks skipped on the literal path exactly where they already ran at variable "
+             "coercion; input-field hooks not). The check decorates scalar, input objects, input fields, arguments, field "
+             "definitions, object type, enum and enum value with 0-3 non-commuting tagging directive instances (random hook "
+             "subsets, distinct arguments) and compares inside Coq the values resolvers receive, the field result and the "
+             "multiset of post-input-coercion invocations; field / argument hooks exactly-once and the object/field/scalar "
+             "output chain are checked per request. PARTIAL: the per-type bake() wiring is transcribed (tied by the "
+             "correspondence); enum and abstract-type output hooks are exercised at bake time only.",
+        note="Trusted: Coq kernel, harness (tagging hooks, generators); the order between enum-value and enum-type output hooks "
+             "is not fixed by the property and not compared.",
+        design="4 C13"),
     "C14": dict(
         technique="Coq theorems on the model of Engine.subscribe + event-by-event correspondence on the real engine",
         text="Proved for every finite event sequence of the source: the responses are exactly the map of "
